@@ -42,12 +42,11 @@ RULE = (
     "same function / module object on other data; (3) layouts: every history of the full pool, deltas "
     "(order 2, width 1..2, 4 modes, every dim spelling, T in {1,3,5}) and every reward tensor with T<=3 "
     "(N=1: T<=4) again as offset view and as transposed-dense view, float32 and float64; (4) object "
-    "histories: ONE FeatureDeltas object per (order,width) in {(0,1),(1,1),(1,2),(2,1),(2,2)} driven "
-    "through every dim spelling of rank 2, 3, 2 with dim/time_dim/concatenate/pad_mode/value reassigned "
-    "via the public attributes, T and rank changing, train/eval and float/double switched, == oracle and "
-    "== fresh object; ONE MeanVarianceNormalization object accumulating rank-2 and rank-3 blocks mixed, "
-    "forward with dim and eps reassigned, a second round; ONE TimeDistributedReturn object with gamma / "
-    "batch_first reassigned over T in 1..5, N in 1..3; the command runs hundreds of times in one process "
+    "histories: ONE FeatureDeltas object per configuration ((order,width) in {(0,1),(1,1),(1,2),(2,1),(2,2)} "
+    "x every dim spelling of rank 2 and 3) called with T, data and (where legal) rank changing, train/eval "
+    "and float/double switched, == oracle and == fresh object; ONE MeanVarianceNormalization object "
+    "accumulating rank-2 and rank-3 blocks mixed, forward on both ranks, a second round; ONE "
+    "TimeDistributedReturn object per (gamma, batch_first) over T in 1..5, N in 1..3; the command runs hundreds of times in one process "
     "with changing flags (cli pass); (6) one larger instance each: 600 frames x 13 coefficients in 7 "
     "blocks, deltas of a 300 x 13 input (orders 2-3, widths 2-3), returns for T=40, N=20. "
     "Partially specified statistics: for every input subset x every OTHER subset with non-zero deviation as "
@@ -65,6 +64,15 @@ RULE = (
     "gamma 0 and 1, both layouts, functional and module, against the backward "
     "recursion in float64; MVN with 70,001 frames in one accumulate() between 1,500 small calls; deltas of "
     "a 5000-step sequence, 4 pad modes. "
+    "(14) lifecycle pass: every guards.lifecycle_variants object of MeanVarianceNormalization (4 dim/rank "
+    "layouts x none/mean/std/both given x eps in {default, 0.0, 0.5}; state_dict-into-other = a module built "
+    "with OTHER statistics and another eps that was used and then loads the state dict), FeatureDeltas (orders "
+    "0..2, every fifth dim spelling incl. 0 / False / value 0.0, into-other = other dim/time_dim/concatenate/"
+    "pad mode/value), TimeDistributedReturn (8 configurations incl. gamma 0.0) and Sequential(MVN, "
+    "FeatureDeltas) on 2-3 inputs each == the definition for a fresh object; deepcopy / pickle / torch.save / "
+    "state_dict in the middle of an accumulation, then accumulate on and store. Histories: one object per "
+    "configuration; reassigning `__constants__` attributes (dim, eps, gamma, batch_first, pad_mode, ...) on a "
+    "live object is executed and counted (constants_reassigned_honoured/ignored), never judged. "
     "All cases distinct by construction (cartesian products of duplicate-free generators). Non-trivial: "
     "MVN history with >=2 chunks; delta case with order>=1; return case with T>=2 and gamma != 0."
 )
@@ -465,6 +473,11 @@ def _cli_case(ctx, chunks, order, groups, rank, pos, dim, bessel):
                        "single_frame": smallest == 1, "bessel": bessel, "grouped": groups is not None},
                       case, {"error": str(e)[-300:]})
         return
+    if bessel and smallest < 2:
+        # Bessel's correction of a single frame: store() documents a raise; a command that answers anyway
+        # has no defined expectation here - counted, the other cases judge the statistics
+        ctx.count("no raise for bessel with one frame (not judged)")
+        return
     if groups is None:
         got = {None: got}
     if not isinstance(got, dict) or set(got) != set(expected):
@@ -735,59 +748,85 @@ def _run_guard_returns(ctx, spec, tier, seed):
     ctx.sample({"part": "guards-returns", "N": N, "layouts": LAYOUTS})
 
 
+def _count_reassigned(ctx, honoured):
+    """Reassigning a `__constants__` attribute of a live module is executed and counted, never judged
+    (CHECK_AUTHORING.md, 'What a history may NOT demand')."""
+    ctx.count("constants_reassigned_honoured" if honoured else "constants_reassigned_ignored")
+
+
 def _history_deltas(ctx, seed, order, width):
-    """ONE FeatureDeltas object: input rank and T change from call to call, dim / time_dim /
-    concatenate / pad_mode / value are reassigned through the public attributes, train/eval and
-    float/double are switched; every result must equal the oracle's (= a fresh object's)."""
-    mod = M.FeatureDeltas(order=order, width=width)
+    """ONE FeatureDeltas object PER CONFIGURATION (every (dim, time_dim, concatenate) spelling of rank 2 and
+    3, pad mode rotating): it is called again and again with T, the data, the rank (where the spelling is
+    legal for both) changing, train/eval and float/double switched; every result must equal the oracle's
+    and a fresh object's.  New configurations come from newly constructed objects; one reassignment of the
+    constants per object is executed at the end and only counted."""
     step = 0
-    for rank in (2, 3, 2):
+    for rank in (2, 3):
         for dim, time_dim, concatenate in _delta_dims(rank):
             step += 1
             mode = PAD_MODES[step % 4]
-            T = 1 + (step * 3) % 5
-            if not O.pad_admitted(T, order * width, mode):
-                mode = "replicate"
             value = 1.5 if (mode == "constant" and step % 8 < 4) else 0.0
-            dtname = "float64" if (step // 7) % 2 else "float32"
-            shape = _delta_shape(rank, T, time_dim % rank)
-            flat = _delta_values(shape, seed + step)
-            mod.dim, mod.time_dim, mod.concatenate, mod.pad_mode, mod.value = dim, time_dim, concatenate, mode, value
-            mod.train(step % 3 == 0)
-            mod.to(DTYPES[dtname])
+            mod = M.FeatureDeltas(dim, time_dim, concatenate, order, width, mode, value)
             case = {"kind": "history-deltas", "seed": seed, "order": order, "width": width, "step": step}
-            ctx.case(1, 1)
-            x = torch.tensor(flat, dtype=DTYPES[dtname]).view(shape)
-            sig = {"api": "FeatureDeltas", "history": "one object, attributes reassigned"}
+            sig = {"api": "FeatureDeltas", "history": "one object per configuration, inputs / mode switches vary"}
+            calls = 0
+            for call, T in enumerate((3, 1, 5, 2, 4, 5)):
+                if not O.pad_admitted(T, order * width, mode):
+                    continue
+                # the same spelling on a rank-3 input when it is legal there too (rank-2 objects only)
+                r = 3 if (rank == 2 and call % 2 and -2 <= time_dim < 2 and
+                          -(2 if concatenate else 3) <= dim < (2 if concatenate else 3)) else rank
+                dtname = "float64" if (call // 2) % 2 else "float32"
+                shape = _delta_shape(r, T, time_dim % r)
+                flat = _delta_values(shape, seed + 17 * step + call)
+                mod.train(call % 3 == 0)
+                mod.to(DTYPES[dtname])
+                ctx.case(1, 1)
+                calls += 1
+                x = torch.tensor(flat, dtype=DTYPES[dtname]).view(shape)
+                try:
+                    y = mod(x)
+                    fresh = M.FeatureDeltas(dim, time_dim, concatenate, order, width, mode, value).to(x.dtype)(x)
+                except Exception as e:
+                    ctx.violation(dict(sig, symptom="raises", type=type(e).__name__), case,
+                                  {"error": str(e)[-300:], "step": step, "call": call})
+                    return
+                exp, eshape = O.deltas(O.to_dict(x.tolist(), shape), shape, dim, time_dim, concatenate, order,
+                                       width, mode, value)
+                tol = 1e-6 if dtname == "float64" else 2e-5
+                ok = tuple(y.shape) == tuple(eshape) and all(
+                    _close(O.nested_get(y.tolist(), idx), exp[idx], tol) for idx in O.indices(eshape))
+                if not ok or y.shape != fresh.shape or not torch.allclose(y, fresh, rtol=1e-6, atol=1e-6):
+                    ctx.violation(dict(sig, symptom="reused-object-differs-from-fresh-object"), case,
+                                  {"step": step, "call": call, "dim": dim, "time_dim": time_dim,
+                                   "concatenate": concatenate, "mode": mode, "T": T, "rank": r,
+                                   "observed": y.tolist(), "fresh": fresh.tolist()})
+                    return
+            # constants reassigned on the live object: counted only
             try:
+                mod.float()
+                mod.concatenate, mod.pad_mode, mod.value = (not concatenate), "constant", 2.5
+                shape = _delta_shape(rank, 3, time_dim % rank)
+                x = torch.tensor(_delta_values(shape, seed), dtype=torch.float32).view(shape)
+                d2 = dim if -rank <= dim < rank else 0
+                mod.dim = d2
                 y = mod(x)
-                fresh = M.FeatureDeltas(dim, time_dim, concatenate, order, width, mode, value).to(x.dtype)(x)
-            except Exception as e:
-                ctx.violation(dict(sig, symptom="raises", type=type(e).__name__), case,
-                              {"error": str(e)[-300:], "step": step})
-                return
-            exp, eshape = O.deltas(O.to_dict(x.tolist(), shape), shape, dim, time_dim, concatenate, order,
-                                   width, mode, value)
-            tol = 1e-6 if dtname == "float64" else 2e-5
-            ok = tuple(y.shape) == tuple(eshape) and all(
-                _close(O.nested_get(y.tolist(), idx), exp[idx], tol) for idx in O.indices(eshape))
-            if not ok or y.shape != fresh.shape or not torch.allclose(y, fresh, rtol=1e-6, atol=1e-6):
-                ctx.violation(dict(sig, symptom="reused-object-differs-from-fresh-object"), case,
-                              {"step": step, "dim": dim, "time_dim": time_dim, "concatenate": concatenate,
-                               "mode": mode, "T": T, "observed": y.tolist(), "fresh": fresh.tolist()})
-                return
+                want = M.FeatureDeltas(d2, time_dim, not concatenate, order, width, "constant", 2.5)(x)
+                _count_reassigned(ctx, y.shape == want.shape and torch.allclose(y, want, atol=1e-5))
+            except Exception:
+                _count_reassigned(ctx, False)
 
 
 def _history_mvn(ctx, seed):
     """ONE MeanVarianceNormalization object over a long life: blocks of rank 2 and rank 3 mixed in one
-    accumulation, store, forward on both ranks, dim and eps reassigned through the public attributes,
-    train/eval switched, a second accumulation round."""
+    accumulation (feature axis last), store, forward on both ranks with train/eval switched, a second
+    accumulation round on the same object.  dim / eps are `__constants__`: reassigning them is counted."""
     api = "MeanVarianceNormalization"
     chunks = _chunks("quick", seed, 3)
     ids = sorted(chunks)
     for bessel in (False, True):
         case = {"kind": "history-mvn", "seed": seed, "bessel": bessel}
-        sig = {"api": api, "history": "one object, ranks mixed, attributes reassigned", "bessel": bessel}
+        sig = {"api": api, "history": "one object, ranks mixed, several rounds", "bessel": bessel}
         ctx.case(1, 1)
         try:
             mvn = M.MeanVarianceNormalization(-1)
@@ -799,41 +838,56 @@ def _history_mvn(ctx, seed):
             mean, std, zero = O.pooled_stats(pooled, bessel)
             if not _cmp_stats(ctx, api, case, mvn.mean, mvn.std, pooled, bessel, {"after": "mixed-ranks"}):
                 continue
-            for rank, pos, dim in ((2, 1, -1), (3, 2, -1), (2, 0, 0), (3, 1, 1), (3, 0, -3), (2, 1, 1)):
-                mvn.dim = dim
-                mvn.eval() if rank == 2 else mvn.train()
-                y = mvn(_layout(pooled, rank, pos, torch.float64))
-                if not _check_normalised(ctx, api, dict(case, dim=dim, rank=rank), _unlayout(y, pos, 3), pooled,
-                                         mean, std, zero, bessel, 1e-9, False):
+            ok = True
+            for n, (rank, pos) in enumerate(((2, 1), (3, 2), (2, 1), (3, 2))):
+                mvn.eval() if n % 2 else mvn.train()
+                y = mvn(_layout(pooled, rank, pos, torch.float64 if n < 2 else torch.float32))
+                if not _check_normalised(ctx, api, dict(case, rank=rank), _unlayout(y, pos, 3), pooled,
+                                         mean, std, zero, bessel, 1e-9 if n < 2 else 2e-5, False):
+                    ok = False
                     break
-            # eps is a public attribute too: max(std, eps) with eps = 4
-            mvn.dim, mvn.eps = -1, 4.0
-            y = _unlayout(mvn(_layout(pooled, 2, 1, torch.float64)), 1, 3)
-            exp = O.normalise(pooled, mean, std, 4.0)
-            if any(not _close(y[i][f], exp[i][f], 1e-9) for i in range(len(pooled)) for f in range(3)):
-                ctx.violation(dict(sig, symptom="eps-attribute-ignored"), case, {"expected": exp, "observed": y})
-            # second round on the same object with another dim
-            mvn.dim, mvn.eps = 0, EPS
+            if not ok:
+                continue
+            # second round on the same object (same dim), statistics of the new data only
             sub = ids[1:3]
             for c in sub:
-                mvn.accumulate(_layout(chunks[c], 2, 0, torch.float32))
+                mvn.accumulate(_layout(chunks[c], 2, 1, torch.float32))
             mvn.store(bessel=bessel)
-            _cmp_stats(ctx, api, case, mvn.mean, mvn.std, _frames_of(chunks, sub), bessel, {"after": "second-round"})
+            if not _cmp_stats(ctx, api, case, mvn.mean, mvn.std, _frames_of(chunks, sub), bessel,
+                              {"after": "second-round"}):
+                continue
+            # constants reassigned on the live object: counted only
+            fr2 = _frames_of(chunks, sub)
+            m2, s2, _ = O.pooled_stats(fr2, bessel)
+            try:
+                mvn.dim = 0
+                y = _unlayout(mvn(_layout(fr2, 2, 0, torch.float64)), 0, 3)
+                exp = O.normalise(fr2, m2, s2, EPS)
+                _count_reassigned(ctx, all(_close(y[i][f], exp[i][f], 1e-9) for i in range(len(fr2)) for f in range(3)))
+            except Exception:
+                _count_reassigned(ctx, False)
+            try:
+                mvn.dim, mvn.eps = -1, 4.0
+                y = _unlayout(mvn(_layout(fr2, 2, 1, torch.float64)), 1, 3)
+                exp = O.normalise(fr2, m2, s2, 4.0)
+                _count_reassigned(ctx, all(_close(y[i][f], exp[i][f], 1e-9) for i in range(len(fr2)) for f in range(3)))
+            except Exception:
+                _count_reassigned(ctx, False)
         except Exception as e:
             ctx.violation(dict(sig, symptom="raises", type=type(e).__name__), case, {"error": str(e)[-300:]})
 
 
 def _history_returns(ctx, seed):
-    """ONE TimeDistributedReturn object: gamma and batch_first reassigned, T and N changing."""
-    mod = M.TimeDistributedReturn(0.5, False)
+    """ONE TimeDistributedReturn object per (gamma, batch_first): T and N change from call to call,
+    train/eval switched.  gamma / batch_first are `__constants__`: one reassignment per object, counted."""
     rng = random.Random(f"c18-hist-ret-{seed}")
     step = 0
-    for T in (3, 1, 4, 2, 5):
-        for N in (2, 1, 3):
-            for gamma in GAMMAS:
-                for batch_first in (False, True):
+    for gamma in GAMMAS:
+        for batch_first in (False, True):
+            mod = M.TimeDistributedReturn(gamma, batch_first)
+            for T in (3, 1, 4, 2, 5):
+                for N in (2, 1, 3):
                     step += 1
-                    mod.gamma, mod.batch_first = gamma, batch_first
                     mod.train(step % 2 == 0)
                     cols = [[rng.choice(REWARDS) for _ in range(T)] for _ in range(N)]
                     r = torch.tensor(cols, dtype=torch.float32)
@@ -850,10 +904,263 @@ def _history_returns(ctx, seed):
                     exp = [O.returns(c, gamma) for c in cols]
                     if any(not _close(got[n][t], exp[n][t], 1e-6) for n in range(N) for t in range(T)):
                         ctx.violation({"api": "TimeDistributedReturn", "symptom": "reused-object-differs-from-oracle",
-                                       "history": "one object, attributes reassigned"}, case,
+                                       "history": "one object per configuration, T and N vary"}, case,
                                       {"step": step, "gamma": gamma, "batch_first": batch_first,
                                        "expected": exp, "observed": got})
                         return
+            try:  # constants reassigned on the live object: counted only
+                g2 = 0.5 if gamma != 0.5 else 2.0
+                mod.gamma, mod.batch_first = g2, not batch_first
+                cols = [[1.0, 2.0, -1.0], [0.0, 1.0, 1.0]]
+                r = torch.tensor(cols)
+                R = mod(r if not batch_first else r.t())
+                got = (R if not batch_first else R.t()).tolist()
+                exp = [O.returns(c, g2) for c in cols]
+                _count_reassigned(ctx, all(_close(got[n][t], exp[n][t], 1e-6) for n in range(2) for t in range(3)))
+            except Exception:
+                _count_reassigned(ctx, False)
+
+
+# ======================================================= object lifecycle (guards.lifecycle_variants)
+def _lifecycle(ctx, api, cfg, make, used, make_other, inputs, expect, expect_other, tol, seed):
+    """Every lifecycle variant of make() (deepcopy, pickle, torch.save, used+deepcopy, eval+deepcopy,
+    state_dict, state_dict-after-use, double-float, state_dict-into-other) must compute, on every input,
+    what the definition gives for a fresh object (for state_dict-into-other: the other object's options
+    with the loaded state)."""
+    case = {"kind": "lifecycle", "api": api, "cfg": cfg, "seed": seed}
+    try:
+        variants = list(GD.lifecycle_variants(make, used, None, make_other))
+    except GD.GuardViolation as e:
+        ctx.violation({"api": api, "symptom": "lifecycle-guard", "lifecycle": "eval+deepcopy"}, case, {"error": str(e)})
+        return
+    except Exception as e:
+        ctx.violation({"api": api, "symptom": "raises", "type": type(e).__name__, "lifecycle": "building variants"},
+                      case, {"error": str(e)[-300:]})
+        return
+    if make_other is not None and used is not None:
+        # several checkpoints evaluated with one object: it stays in eval mode, was called under no_grad and
+        # then receives the state - no mode switch in between that could rebuild derived state by accident
+        try:
+            o = make_other()
+            o.eval()
+            with torch.no_grad():
+                used(o)
+            o.load_state_dict(make().state_dict())
+            variants.append(("load_state_dict-after-eval-use", o))
+        except Exception:  # a refused load decides nothing
+            pass
+    for name, obj in [("fresh", make())] + variants:
+        for i, x in enumerate(inputs):
+            ctx.case(1, 1 if name != "fresh" else 0)
+            try:
+                y = obj(x)
+            except Exception as e:
+                ctx.violation({"api": api, "symptom": "raises", "type": type(e).__name__, "lifecycle": name},
+                              dict(case, variant=name, input=i), {"error": str(e)[-300:]})
+                break
+            exp = (expect_other if name in ("state_dict-into-other", "load_state_dict-after-eval-use")
+                   else expect)(x)
+            e_t = torch.tensor(exp, dtype=torch.float64)
+            if tuple(y.shape) != tuple(e_t.shape) or not bool(
+                    ((y.double() - e_t).abs() <= tol * (1 + e_t.abs())).all()):
+                ctx.violation({"api": api, "symptom": "lifecycle-variant-differs-from-fresh-object",
+                               "lifecycle": name}, dict(case, variant=name, input=i),
+                              {"expected": exp, "observed": y.tolist()})
+                break
+    ctx.count("lifecycle variants", len(variants))
+
+
+def _mvn_expect(rank, pos, mean, std, eps):
+    def f(x):
+        nfeat = x.shape[pos]
+        frames = _unlayout(x.double(), pos, nfeat)
+        own_mean, own_std, _ = O.pooled_stats(frames, False)
+        y = O.normalise(frames, mean if mean is not None else own_mean, std if std is not None else own_std, eps)
+        return _layout(y, rank, pos, torch.float64).reshape(x.shape).tolist() if rank == 2 else \
+            torch.tensor(y, dtype=torch.float64).view(*[x.shape[i] for i in range(rank) if i != pos], nfeat) \
+            .movedim(-1, pos).tolist()
+    return f
+
+
+def _run_lifecycle(ctx, spec, tier, seed):
+    which = spec["which"]
+    if which == "mvn":
+        chunks = _chunks("quick", seed, 3)
+        ids = sorted(chunks)
+        A, B = _frames_of(chunks, ids[1:3]), _frames_of(chunks, ids[2:])
+        mA, sA, _ = O.pooled_stats(A, False)
+        mB, sB, _ = O.pooled_stats(B, False)
+        full = _frames_of(chunks, ids)
+        for rank, pos, dim in ((2, 1, -1), (2, 0, 0), (3, 1, 1), (3, 0, -3)):
+            inputs = [_layout(full, rank, pos, torch.float32), _layout(B, rank, pos, torch.float64),
+                      _layout(A[:2], rank, pos, torch.float32)]
+            for given in WHICH:
+                for eps, eps_other in ((EPS, 0.5), (0.0, EPS), (0.5, 0.0)):
+                    def stats(m, sd):
+                        return (torch.tensor(m) if given in ("mean", "both") else None,
+                                torch.tensor(sd) if given in ("std", "both") else None)
+
+                    def make():
+                        return M.MeanVarianceNormalization(dim, *stats(mA, sA), eps)
+
+                    def make_other():
+                        return M.MeanVarianceNormalization(dim, *stats(mB, sB), eps_other)
+
+                    em = mA if given in ("mean", "both") else None
+                    es = sA if given in ("std", "both") else None
+                    if given in ("none", "mean") and eps == 0.5:
+                        continue  # own deviation: nothing derived from eps at construction that is not covered
+                    _lifecycle(ctx, "MeanVarianceNormalization",
+                               {"dim": dim, "rank": rank, "given": given, "eps": eps, "eps_other": eps_other},
+                               make, lambda o: o(inputs[1]), make_other, inputs,
+                               _mvn_expect(rank, pos, em, es, eps), _mvn_expect(rank, pos, em, es, eps_other),
+                               2e-5, seed)
+        # lifecycle in the middle of an accumulation: copy, go on accumulating on the copy, store
+        import copy
+        import io
+        import pickle
+
+        def through(kind, o):
+            if kind == "deepcopy":
+                return copy.deepcopy(o)
+            if kind == "pickle":
+                return pickle.loads(pickle.dumps(o))
+            if kind == "torch.save":
+                buf = io.BytesIO()
+                torch.save(o, buf)
+                buf.seek(0)
+                return torch.load(buf, weights_only=False)
+            fresh = M.MeanVarianceNormalization(o.dim)
+            fresh.accumulate(torch.zeros(1, 3))  # the running buffers must exist to receive the state
+            fresh.load_state_dict(o.state_dict())
+            return fresh
+        for kind in ("deepcopy", "pickle", "torch.save", "state_dict"):
+            for bessel in (False, True):
+                case = {"kind": "lifecycle-accumulate", "seed": seed, "variant": kind, "bessel": bessel}
+                ctx.case(1, 1)
+                try:
+                    mvn = M.MeanVarianceNormalization(-1)
+                    mvn.accumulate(_layout(chunks[ids[1]], 2, 1, torch.float32))
+                    mvn.accumulate(_layout(chunks[ids[2]], 3, 2, torch.float64))
+                    cp = through(kind, mvn)
+                    cp.accumulate(_layout(chunks[ids[3]], 2, 1, torch.float32))
+                    cp.store(bessel=bessel)
+                    _cmp_stats(ctx, "MeanVarianceNormalization", case, cp.mean, cp.std,
+                               _frames_of(chunks, ids[1:4]), bessel, {"lifecycle": kind + " in mid-accumulation"})
+                    # the original is not disturbed by what happened to the copy
+                    mvn.store(bessel=bessel)
+                    _cmp_stats(ctx, "MeanVarianceNormalization", case, mvn.mean, mvn.std,
+                               _frames_of(chunks, ids[1:3]), bessel, {"lifecycle": kind + " original after copy"})
+                except Exception as e:
+                    ctx.violation({"api": "MeanVarianceNormalization", "symptom": "raises", "type": type(e).__name__,
+                                   "lifecycle": kind + " in mid-accumulation"}, case, {"error": str(e)[-300:]})
+    elif which == "deltas":
+        n = 0
+        for order, width in ((0, 1), (1, 2), (2, 2)):
+            for rank in (2, 3):
+                dims = _delta_dims(rank)
+                for j in range(0, len(dims), 5):
+                    n += 1
+                    dim, time_dim, concatenate = dims[j]
+                    dim2, time_dim2, concatenate2 = dims[(j + 7) % len(dims)]
+                    mode, value = (("constant", 0.0), ("constant", 1.5), ("replicate", 0.0), ("circular", 0.0))[n % 4]
+                    mode2, value2 = (("replicate", 0.0), ("constant", 0.0), ("constant", 2.5), ("reflect", 0.0))[n % 4]
+                    Ts = [T for T in (5, 3, 4) if O.pad_admitted(T, order * width, mode)
+                          and O.pad_admitted(T, order * width, mode2)]
+                    if not Ts:
+                        continue
+
+                    def mk(T, td):
+                        shape = _delta_shape(rank, T, td % rank)
+                        return torch.tensor(_delta_values(shape, seed + T), dtype=torch.float32).view(shape)
+                    # inputs must suit both configurations' time axes: use the same T on every axis candidate
+                    inputs = [mk(T, time_dim) for T in Ts]
+                    inputs_other = [mk(T, time_dim2) for T in Ts]
+
+                    def expect_for(d, td, c, m, v):
+                        def f(x):
+                            shape = tuple(x.shape)
+                            exp, eshape = O.deltas(O.to_dict(x.tolist(), shape), shape, d, td, c, order, width, m, v)
+                            return torch.tensor([exp[i] for i in O.indices(eshape)], dtype=torch.float64) \
+                                .view(eshape).tolist()
+                        return f
+                    cfg = {"order": order, "width": width, "dim": dim, "time_dim": time_dim,
+                           "concatenate": concatenate, "mode": mode, "value": value,
+                           "other": [dim2, time_dim2, concatenate2, mode2, value2]}
+                    make = lambda: M.FeatureDeltas(dim, time_dim, concatenate, order, width, mode, value)  # noqa: E731
+                    other = lambda: M.FeatureDeltas(dim2, time_dim2, concatenate2, order, width, mode2, value2)  # noqa: E731
+                    _lifecycle(ctx, "FeatureDeltas", cfg, make, lambda o: o(inputs[0] if o.time_dim == time_dim
+                                                                          else inputs_other[0]),
+                               None, inputs, expect_for(dim, time_dim, concatenate, mode, value), None, 2e-5, seed)
+                    # state_dict-into-other on inputs laid out for the other configuration
+                    try:
+                        o = other()
+                        o.eval()
+                        o(inputs_other[0])
+                        o.load_state_dict(make().state_dict())
+                    except Exception:
+                        continue
+                    exp_o = expect_for(dim2, time_dim2, concatenate2, mode2, value2)
+                    for i, x in enumerate(inputs_other):
+                        ctx.case(1, 1)
+                        y = o(x)
+                        e_t = torch.tensor(exp_o(x), dtype=torch.float64)
+                        if tuple(y.shape) != tuple(e_t.shape) or not bool(
+                                ((y.double() - e_t).abs() <= 2e-5 * (1 + e_t.abs())).all()):
+                            ctx.violation({"api": "FeatureDeltas", "symptom": "lifecycle-variant-differs-from-fresh-object",
+                                           "lifecycle": "state_dict-into-other"},
+                                          {"kind": "lifecycle", "api": "FeatureDeltas", "cfg": cfg, "seed": seed},
+                                          {"expected": e_t.tolist(), "observed": y.tolist()})
+                            break
+    elif which == "returns":
+        rng = random.Random(f"c18-life-ret-{seed}")
+        for gamma in GAMMAS:
+            for batch_first in (False, True):
+                g2 = {0.0: 2.0, 0.5: 0.0, 1.0: 0.5, 2.0: 1.0}[gamma]
+                cols_list = [[[rng.choice(REWARDS) for _ in range(T)] for _ in range(N)] for T, N in ((4, 2), (1, 3), (3, 1))]
+
+                def tens(cols):
+                    r = torch.tensor(cols, dtype=torch.float32)
+                    return r if batch_first else r.t()
+                inputs = [tens(c) for c in cols_list]
+
+                def expect_for(g):
+                    def f(x):
+                        cols = (x if batch_first else x.t()).tolist()
+                        R = torch.tensor([O.returns(c, g) for c in cols], dtype=torch.float64)
+                        return (R if batch_first else R.t()).tolist()
+                    return f
+                _lifecycle(ctx, "TimeDistributedReturn", {"gamma": gamma, "batch_first": batch_first, "other_gamma": g2},
+                           lambda: M.TimeDistributedReturn(gamma, batch_first), lambda o: o(inputs[0]),
+                           lambda: M.TimeDistributedReturn(g2, batch_first), inputs,
+                           expect_for(gamma), expect_for(g2), 1e-6, seed)
+    else:  # nested use: Sequential(MVN, FeatureDeltas) as SpectDataSet builds it
+        chunks = _chunks("quick", seed, 3)
+        ids = sorted(chunks)
+        A, B = _frames_of(chunks, ids[1:3]), _frames_of(chunks, ids[2:])
+        mA, sA, _ = O.pooled_stats(A, False)
+        mB, sB, _ = O.pooled_stats(B, False)
+        inputs = [torch.tensor(_frames_of(chunks, ids), dtype=torch.float32), torch.tensor(B, dtype=torch.float32)]
+        for given in ("both", "none"):
+            for order in (0, 2):
+                def seq(m, sd):
+                    mt = torch.tensor(m) if given == "both" else None
+                    st = torch.tensor(sd) if given == "both" else None
+                    return torch.nn.Sequential(M.MeanVarianceNormalization(-1, mt, st), M.FeatureDeltas(order=order))
+
+                def expect_for(m, sd):
+                    def f(x):
+                        frames = x.tolist()
+                        om, osd, _ = O.pooled_stats(frames, False)
+                        norm = O.normalise(frames, m if given == "both" else om, sd if given == "both" else osd, EPS)
+                        shape = tuple(x.shape)
+                        exp, eshape = O.deltas(O.to_dict(norm, shape), shape, -1, -2, True, order, 2, "replicate", 0.0)
+                        return torch.tensor([exp[i] for i in O.indices(eshape)], dtype=torch.float64).view(eshape).tolist()
+                    return f
+                _lifecycle(ctx, "Sequential(MeanVarianceNormalization, FeatureDeltas)", {"given": given, "order": order},
+                           lambda: seq(mA, sA), lambda o: o(inputs[1]), lambda: seq(mB, sB), inputs,
+                           expect_for(mA, sA), expect_for(mA, sA), 5e-5, seed)
+    ctx.sample({"part": "lifecycle", "which": which})
 
 
 def _run_history(ctx, spec, tier, seed):
@@ -1371,15 +1678,17 @@ def shards(tier, seed):
         out.append({"part": "large", "which": which})
         out.append({"part": "modes", "which": which})
     out.append({"part": "dataset"})
+    for which in ("mvn", "deltas", "returns", "nested"):
+        out.append({"part": "lifecycle", "which": which})
     for T in LONG_T:
         out.append({"part": "long", "which": "returns", "T": T})
     out.append({"part": "long", "which": "mvn"})
     out.append({"part": "long", "which": "deltas"})
     # heavy shards first so the pool stays busy
     weight = {"returns": 0, "deltas": 1, "mvn": 2, "cli": 3, "guards-returns": 0, "guards-deltas": 1,
-              "guards-mvn": 2, "history": 3, "large": 1, "modes": 0, "dataset": 2, "long": -1}
+              "guards-mvn": 2, "history": 3, "large": 1, "modes": 0, "dataset": 2, "long": -1, "lifecycle": 0}
     # (the cheap history / large parts come first so that a tight wall budget can never skip them)
-    out.sort(key=lambda s: (-1 if s["part"] in ("history", "large", "modes", "dataset", "long") else
+    out.sort(key=lambda s: (-1 if s["part"] in ("history", "large", "modes", "dataset", "long", "lifecycle") else
                             0 if (s["part"] == "returns" and s.get("hi")) else 1, weight[s["part"]]))
     return out
 
@@ -1407,6 +1716,8 @@ def run_shard(spec, tier, seed):
         _run_modes(ctx, spec, tier, seed)
     elif part == "long":
         _run_long(ctx, spec, tier, seed)
+    elif part == "lifecycle":
+        _run_lifecycle(ctx, spec, tier, seed)
     elif part == "dataset":
         _run_dataset(ctx, spec, tier, seed)
     else:
@@ -1438,6 +1749,10 @@ def replay(case):
     elif kind == "return":
         _return_batch(ctx, case["cols"], case["gamma"], case["batch_first"], case["dtype"], case["api"],
                       case.get("layout", "as-is"), case.get("guard", False), case.get("tol", 1e-6))
+    elif kind in ("lifecycle", "lifecycle-accumulate"):
+        which = {"MeanVarianceNormalization": "mvn", "FeatureDeltas": "deltas",
+                 "TimeDistributedReturn": "returns"}.get(case.get("api", "MeanVarianceNormalization"), "nested")
+        _run_lifecycle(ctx, {"which": which}, "quick", case["seed"])
     elif kind == "long-return":
         _long_return_case(ctx, case["T"], case["N"], case["gamma"], case["dtype"], case["tol"],
                           case["batch_first"], case["api"], case["seed"])
